@@ -87,7 +87,7 @@ func dumpTop(p c04Planned) (string, bool) {
 }
 
 // withTables writes the tables into a scratch directory, makes it the working directory and runs f.
-func withTables(tables []jtable, f func(dir string) string) string {
+func withTables(tables []jtable04, f func(dir string) string) string {
 	dir := scratchDir("c04")
 	defer os.RemoveAll(dir)
 	for _, t := range tables {
@@ -101,7 +101,7 @@ func withTables(tables []jtable, f func(dir string) string) string {
 	return f(dir)
 }
 
-func encodeTables(tables []jtable) string {
+func encodeTables(tables []jtable04) string {
 	parts := []string{strconv.Itoa(len(tables))}
 	for _, t := range tables {
 		parts = append(parts, t.encode())
@@ -110,7 +110,7 @@ func encodeTables(tables []jtable) string {
 }
 
 type c04Case struct {
-	tables []jtable
+	tables []jtable04
 	sql    string
 	// structural only: the query is outside what `denote` models (outer joins print retractions, IN, tumble, …)
 	planOnly bool
@@ -123,18 +123,18 @@ func c04Templates(g *Gen) []c04Case {
 	t1 := genFixedTable(g, "t1.csv", []qcol{{name: "k", kind: 'i', nullable: true}, {name: "a", kind: 's', nullable: true}, {name: "d", kind: 'i'}}, 7)
 	j0 := genFixedTable(g, "j0.json", []qcol{{name: "k", kind: 'f', nullable: true}, {name: "a", kind: 's'}, {name: "l", kind: 'l'}}, 5)
 	w0 := genFixedTable(g, "w0.csv", []qcol{{name: "k", kind: 'i'}, {name: "ts", kind: 'T'}, {name: "a", kind: 'i', nullable: true}}, 6)
-	csv := []jtable{t0, t1}
+	csv := []jtable04{t0, t1}
 	n := strconv.Itoa(1 + g.Intn(3))
 	lit := strconv.Itoa(g.Intn(3))
-	tie := jtable{file: "tie.csv", cols: []qcol{{name: "b", kind: 'i'}, {name: "a", kind: 'i'}, {name: "k", kind: 'i'}},
+	tie := jtable04{file: "tie.csv", cols: []qcol{{name: "b", kind: 'i'}, {name: "a", kind: 'i'}, {name: "k", kind: 'i'}},
 		rows: [][]octosql.Value{{octosql.NewInt(1), octosql.NewInt(2), octosql.NewInt(0)}, {octosql.NewInt(2), octosql.NewInt(1), octosql.NewInt(0)}}}
 	cs := []c04Case{
 		// the witness of Octo.C04.C04_refuted: the two rows tie on k, the unused column b decides which one LIMIT 1 keeps
-		{tables: []jtable{tie}, sql: "SELECT q.a FROM (SELECT t.b AS b, t.a AS a, t.k AS k FROM tie.csv t ORDER BY k LIMIT 1) q"},
+		{tables: []jtable04{tie}, sql: "SELECT q.a FROM (SELECT t.b AS b, t.a AS a, t.k AS k FROM tie.csv t ORDER BY k LIMIT 1) q"},
 		// the field an Unnest expands is not otherwise used (fixed defect: the optimizer removed it)
-		{tables: []jtable{j0}, sql: "SELECT q.x FROM (SELECT a.k AS x, unnest(a.l) AS u FROM j0.json a) q"},
-		{tables: []jtable{j0}, sql: "SELECT q.u, q.y FROM (SELECT a.k AS x, unnest(a.l) AS u, a.a AS y FROM j0.json a) q WHERE q.u > 1.5"},
-		{tables: []jtable{j0}, sql: "SELECT q.y FROM (SELECT unnest(a.l) AS u, a.a AS y, a.k AS x FROM j0.json a WHERE a.k IS NOT NULL) q"},
+		{tables: []jtable04{j0}, sql: "SELECT q.x FROM (SELECT a.k AS x, unnest(a.l) AS u FROM j0.json a) q"},
+		{tables: []jtable04{j0}, sql: "SELECT q.u, q.y FROM (SELECT a.k AS x, unnest(a.l) AS u, a.a AS y FROM j0.json a) q WHERE q.u > 1.5"},
+		{tables: []jtable04{j0}, sql: "SELECT q.y FROM (SELECT unnest(a.l) AS u, a.a AS y, a.k AS x FROM j0.json a WHERE a.k IS NOT NULL) q"},
 		// ORDER BY … LIMIT inside, tie-break columns unused outside (known finding when the cut is ambiguous)
 		{tables: csv, sql: "SELECT q.x FROM (SELECT a.b AS y, a.k AS x, a.a AS z FROM t0.csv a ORDER BY x LIMIT " + n + ") q"},
 		{tables: csv, sql: "SELECT q.x FROM (SELECT a.k AS x, a.a AS z, a.c AS w FROM t0.csv a ORDER BY x DESC, z LIMIT " + n + ") q"},
@@ -162,9 +162,9 @@ func c04Templates(g *Gen) []c04Case {
 		{tables: csv, sql: "SELECT p.k AS x, r.a AS y FROM t0.csv p JOIN t0.csv r ON p.k = r.a WHERE p.b = r.b"},
 		{tables: csv, sql: "SELECT a.k AS x, b.d AS y, e.c AS z FROM t0.csv a JOIN t1.csv b ON a.k = b.k JOIN t0.csv e ON b.d = e.a WHERE e.b != 'q' AND a.a >= 0"},
 		// table valued functions (a time field in the schema); outer joins
-		{tables: []jtable{w0}, sql: "SELECT x.k AS y FROM max_diff_watermark(source=>TABLE(w0.csv), max_diff=>INTERVAL 1 SECOND, time_field=>DESCRIPTOR(ts)) x WHERE x.a IS NOT NULL"},
-		{tables: []jtable{w0}, sql: "SELECT q.y FROM (SELECT x.k AS y, x.ts AS t, x.a AS z FROM max_diff_watermark(source=>TABLE(w0.csv), max_diff=>INTERVAL 1 SECOND, time_field=>DESCRIPTOR(ts)) x) q", planOnly: true},
-		{tables: []jtable{w0}, sql: "WITH w AS (SELECT * FROM max_diff_watermark(source=>TABLE(w0.csv), max_diff=>INTERVAL 1 SECOND, time_field=>DESCRIPTOR(ts)) y) SELECT x.window_end AS e, COUNT(*) AS c FROM tumble(source=>TABLE(w), window_length=>INTERVAL 2 SECONDS, offset=>INTERVAL 0 SECONDS) x GROUP BY x.window_end", planOnly: true},
+		{tables: []jtable04{w0}, sql: "SELECT x.k AS y FROM max_diff_watermark(source=>TABLE(w0.csv), max_diff=>INTERVAL 1 SECOND, time_field=>DESCRIPTOR(ts)) x WHERE x.a IS NOT NULL"},
+		{tables: []jtable04{w0}, sql: "SELECT q.y FROM (SELECT x.k AS y, x.ts AS t, x.a AS z FROM max_diff_watermark(source=>TABLE(w0.csv), max_diff=>INTERVAL 1 SECOND, time_field=>DESCRIPTOR(ts)) x) q", planOnly: true},
+		{tables: []jtable04{w0}, sql: "WITH w AS (SELECT * FROM max_diff_watermark(source=>TABLE(w0.csv), max_diff=>INTERVAL 1 SECOND, time_field=>DESCRIPTOR(ts)) y) SELECT x.window_end AS e, COUNT(*) AS c FROM tumble(source=>TABLE(w), window_length=>INTERVAL 2 SECONDS, offset=>INTERVAL 0 SECONDS) x GROUP BY x.window_end", planOnly: true},
 		{tables: csv, sql: "SELECT a.k AS x, b.d AS y FROM t0.csv a LEFT JOIN t1.csv b ON a.k = b.k WHERE a.a >= 0", planOnly: true},
 		{tables: csv, sql: "SELECT q.x FROM (SELECT a.k AS x, b.d AS y, b.a AS z FROM t0.csv a OUTER JOIN t1.csv b ON a.k = b.k AND a.a = b.d) q", planOnly: true},
 		{tables: csv, sql: "SELECT r.i AS x, a.k AS y FROM range(start=>0, end=>3) r JOIN t0.csv a ON r.i = a.k", planOnly: true},
@@ -234,9 +234,9 @@ func genC04(g *Gen, tier string, w *bufio.Writer) {
 		behavioural := emitted%every == every-1
 		fileFmt := Pick(g, []string{"csv", "csv", "json"})
 		ntab := 1 + g.Intn(3)
-		var tables []jtable
+		var tables []jtable04
 		for ti := 0; ti < ntab; ti++ {
-			tables = append(tables, genJTable(g, fmt.Sprintf("t%d.%s", ti, fileFmt), 7, true))
+			tables = append(tables, genJTable04(g, fmt.Sprintf("t%d.%s", ti, fileFmt), 7, true))
 		}
 		c := &jgen{g: g, tables: tables, opts: jopts{maxDepth: 3, outer: !behavioural, lookup: true, groupBy: true, unnest: true}}
 		sql, _, _ := c.block(1+g.Intn(3), true)
